@@ -39,6 +39,13 @@ def check_pitch_trim(chk, MX):
     if rng.random() < 0.3:
         kw["relaxation"] = round(rng.uniform(0.6, 1.0), 2)
     sc = gen.build_scene(MX, sd, [("a", ac, st, cs)])
+    if rng.random() < 0.3:
+        # one of the two targets is already met at the start (lift balanced, moment not): both conditions must still hold on return
+        try:
+            kw["CL"] = float(sc.solve_forces(dimensional=False, non_dimensional=True)["a"]["total"]["CL"])
+            chk.count("pitch_trim:CL-target-already-met")
+        except Exception:
+            pass
     a = sc._airplanes["a"]
     W = np.array(sc._get_wind(a.p_bar), dtype=float)
     V = float(np.linalg.norm(np.array(a.v) - W))
